@@ -16,6 +16,13 @@ untouched; every new atom is a hydrogen bonded once, to the right atom, at r_cov
 finite coordinates, on the far side of the neighbours' centroid).  Whole molecules: the bundled
 hadd_test.mol2 and every fragment of every bundled CDXML file.
 
+Two further dimensions, because the routine reads the molecule through enum-typed fields and through
+neighbour queries: (a) representation - every environment also with bond types / atom types as plain
+ints, elements as atomic numbers, formal charge/spin as numpy integers, and (first pose, whole
+molecules) after a real MoleculeLibrary / ConformerLibrary write+read and after pickle; (b) history -
+{no query, neighbour queries, an earlier call} x {connect_like, del_bond(+connect), fields assigned in
+place, hint added/removed} x call, expectations read off the object right before the call.
+
 quick: the three bond types of a 3-neighbour environment form a pairwise covering array (25 of 125
 rows), hinted cases use a reduced charge/spin set; thorough: full products.
 """
@@ -23,6 +30,8 @@ from __future__ import annotations
 
 import itertools
 import math
+import os
+import re
 import warnings
 from pathlib import Path
 
@@ -182,39 +191,104 @@ def oa25():
 # =================================================================================================
 # building one environment
 # =================================================================================================
-def build(case, seed):
-    """case = {centre, charge, spin, hint, nbrs:[(el, btype name)], pose:(k, name)}"""
+_RZ = {}
+REPS = ("members", "plain", "mlib", "clib", "pickle")
+REP_CLASS = {
+    "plain": "bond-types-and-atom-fields-as-plain-numbers",
+    "mlib": "after-MoleculeLibrary-round-trip",
+    "clib": "after-ConformerLibrary-round-trip",
+    "pickle": "after-pickle",
+}
+
+
+def build(case, seed, rep="members"):
+    """case = {centre, charge, spin, hint, nbrs:[(el, btype name)], pose:(k, name)}
+
+    rep "members": enum members / symbols / python ints, as a user writes them;
+    rep "plain"  : the same molecule with every field given the way decoders and numpy code give it:
+                   bond types and atom types as plain ints, elements as atomic numbers,
+                   formal charge / spin as numpy integers."""
     k = len(case["nbrs"])
     pose = POSES[k][case["pose"]]
-    rz = rodrigues(Z, math.radians(37.0 * (seed % 9)))  # a seed turns every pose about z only
+    rz = _RZ.get(seed)  # a seed turns every pose about z only
+    if rz is None:
+        rz = _RZ[seed] = rodrigues(Z, math.radians(37.0 * (seed % 9)))
     off = np.array(OFFSETS[seed % len(OFFSETS)] if case.get("offset") is None else case["offset"], float)
     scale = 1.0 + 0.01 * (seed % 5)
-    a = Atom(case["centre"], formal_charge=case["charge"], formal_spin=case["spin"])
+    plain = rep == "plain"
+    if plain:
+        a = Atom(Z_OF[case["centre"]], atype=1, formal_charge=np.int64(case["charge"]), formal_spin=np.int32(case["spin"]))
+    else:
+        a = Atom(case["centre"], formal_charge=case["charge"], formal_spin=case["spin"])
     if case["hint"] is not None:
         a.attrib[HINT] = case["hint"]
     atoms = [a]
     coords = [off]
     for (el, _), d in zip(case["nbrs"], pose):
         if el == "M":
-            b = Atom("Fe", atype=AtomType.CoordinationCenter)
+            b = Atom(26, atype=10) if plain else Atom("Fe", atype=AtomType.CoordinationCenter)
         else:
-            b = Atom(el)
+            b = Atom(Z_OF[el], atype=1, formal_charge=np.int64(0), formal_spin=np.int64(0)) if plain else Atom(el)
         atoms.append(b)
         coords.append(off + (rz @ d) * NBR_LEN[el] * scale)
     # bystanders: must receive nothing
-    atoms.append(Atom("Cl"))
+    atoms.append(Atom(17) if plain else Atom("Cl"))
     coords.append(off + np.array([7.0, 7.5, 8.0]))
-    atoms.append(Atom("Fe"))
+    atoms.append(Atom(26) if plain else Atom("Fe"))
     coords.append(off + np.array([-7.0, 7.5, -8.0]))
     m = Molecule(atoms, copy_atoms=False)
     m.coords = np.array(coords, dtype=float)
     for (el, bt), b in zip(case["nbrs"], atoms[1 : 1 + k]):
-        btype, _ = BT[bt]
-        if btype == BondType.FractionalOrder:
-            m.append_bond(Bond(a, b, btype=btype, f_order=BT[bt][1]))
+        btype, fo = BT[bt]
+        if plain:
+            btype = int(btype)
+        if int(btype) == 99:
+            m.append_bond(Bond(a, b, btype=btype, f_order=fo))
         else:
             m.append_bond(Bond(a, b, btype=btype))
     return m
+
+
+_RT_COUNTER = [0]
+
+
+def roundtrip(scratch, mols, kind):
+    """the molecules after a real write + read through a molli library file (or pickle)."""
+    import pickle
+
+    import molli as ml
+
+    if kind == "pickle":
+        return [pickle.loads(pickle.dumps(m)) for m in mols]
+    _RT_COUNTER[0] += 1
+    path = Path(scratch) / f"rt-{os.getpid()}-{_RT_COUNTER[0]}.{kind}"
+    with warnings.catch_warnings():
+        warnings.simplefilter("ignore")
+        if kind == "mlib":
+            lib = ml.MoleculeLibrary(path, readonly=False, overwrite=True)
+            with lib.writing(timeout=30):
+                for i, m in enumerate(mols):
+                    lib[str(i)] = m
+            lib = ml.MoleculeLibrary(path, readonly=True)
+            with lib.reading(timeout=30):
+                out = [lib[str(i)] for i in range(len(mols))]
+        elif kind == "clib":
+            lib = ml.ConformerLibrary(path, readonly=False, overwrite=True)
+            with lib.writing(timeout=30):
+                for i, m in enumerate(mols):
+                    ens = ml.ConformerEnsemble(m, n_conformers=1)
+                    ens._coords[0] = m.coords
+                    lib[str(i)] = ens
+            lib = ml.ConformerLibrary(path, readonly=True)
+            with lib.reading(timeout=30):
+                out = [ml.Molecule(lib[str(i)][0]) for i in range(len(mols))]
+        else:  # pragma: no cover
+            raise HarnessError(kind)
+    try:
+        path.unlink()
+    except OSError:
+        pass
+    return out
 
 
 # =================================================================================================
@@ -227,11 +301,14 @@ def snapshot(m):
         att = tuple(sorted((str(k), repr(v)) for k, v in a.attrib.items() if k != HINT))
         desc.append((int(a.element), a.isotope, a.label, int(a.atype), int(a.stereo), int(a.geom), a.formal_charge, a.formal_spin, att))
     hints = [a.attrib.get(HINT) for a in atoms]
+    raw_atoms = [(a.atype, a.stereo, a.geom, a.formal_charge, a.formal_spin) for a in atoms]
     bonds = list(m.bonds)
     idx = {id(a): i for i, a in enumerate(atoms)}
     bdesc = [(idx.get(id(b.a1)), idx.get(id(b.a2)), int(b.btype), int(b.stereo), float(b.f_order)) for b in bonds]
     ch = m.atomic_charges
     return {
+        "raw_atoms": raw_atoms,
+        "raw_bonds": [(b.btype, b.stereo) for b in bonds],
         "atoms": atoms,
         "desc": desc,
         "hints": hints,
@@ -453,51 +530,117 @@ def make_repro(snap, case):
     return "\n".join(lines) + "\n"
 
 
-def run_one(ctx, m, case, whole=False, second=True, keyclass=None):
-    """one molecule: call once (and twice); report; returns the outcome tuple"""
+def evaluate(ctx, m, whole=False, second=True, keyclass=None, count=True):
+    """call once (and twice when hint-free) and judge -> (violations [(sig, what)], observation, snapshot)"""
     snap = snapshot(m)
     hinted = any(h is not None for h in snap["hints"])
-    ctx.count(evaluations=1, traces=1, states=1, transitions=1)
+    if count:
+        ctx.count(evaluations=1, traces=1, states=1, transitions=1)
     try:
         with warnings.catch_warnings():
             warnings.simplefilter("ignore")
             r = m.add_implicit_hydrogens()
     except Exception as e:
-        ctx.violation(f"raised[{keyclass or 'environment'}]:{type(e).__name__}", f"add_implicit_hydrogens() raised {type(e).__name__}: {e}", case)
-        return ("raised", type(e).__name__)
+        return [(f"raised[{keyclass or 'environment'}]:{type(e).__name__}", f"add_implicit_hydrogens() raised {type(e).__name__}: {e}")], None, snap
     notes = {}
     bad, obs = verify(m, snap, whole=whole, notes=notes)
-    for kk, vv in notes.items():
-        ctx.add_note(kk, vv)
+    if count:
+        for kk, vv in notes.items():
+            ctx.add_note(kk, vv)
     if r is not None:
         bad.append(("returns:not-none", f"returned {type(r).__name__}"))
-    for sig, what in bad:
-        ctx.violation(sig, what, case, repro=make_repro(snap, case) if sig not in ctx.violations else None)
     # a damaged molecule is not explored further; a result that is merely misplaced/mistyped is
     damaged = [s for s, _ in bad if not (s == "unchanged:atomic-charges-dtype" or s.endswith(":wrong-distance") or s.endswith(":not-pointing-away"))]
-    if damaged:
-        return ("bad", tuple(sorted(s for s, _ in bad)))
-    if second and not hinted:
+    if second and not hinted and not damaged:
         n1 = m.n_atoms
         nb1 = m.n_bonds
         c1 = np.array(m.coords, copy=True)
-        ctx.count(transitions=1)
+        if count:
+            ctx.count(transitions=1)
         try:
             with warnings.catch_warnings():
                 warnings.simplefilter("ignore")
                 m.add_implicit_hydrogens()
         except Exception as e:
-            ctx.violation(f"idempotence:second-call-raised:{type(e).__name__}", f"the second call raised {type(e).__name__}: {e}", case)
-            return ("bad2",)
-        if m.n_atoms != n1 or m.n_bonds != nb1:
-            ctx.violation("idempotence:second-call-adds-atoms", f"a second call on a hint-free molecule added {m.n_atoms - n1} atoms / {m.n_bonds - nb1} bonds", case)
-            return ("bad2",)
-        if np.asarray(m.coords).tobytes() != c1.tobytes():
-            ctx.violation("idempotence:second-call-moves-atoms", "a second call on a hint-free molecule changed coordinates", case)
-            return ("bad2",)
+            bad.append((f"idempotence:second-call-raised:{type(e).__name__}", f"the second call raised {type(e).__name__}: {e}"))
+        else:
+            if m.n_atoms != n1 or m.n_bonds != nb1:
+                bad.append(("idempotence:second-call-adds-atoms", f"a second call on a hint-free molecule added {m.n_atoms - n1} atoms / {m.n_bonds - nb1} bonds"))
+            elif np.asarray(m.coords).tobytes() != c1.tobytes():
+                bad.append(("idempotence:second-call-moves-atoms", "a second call on a hint-free molecule changed coordinates"))
+    return bad, obs, snap
+
+
+def family(sig):
+    """the symptom family of a signature: the per-branch detail in the brackets is dropped."""
+    m = re.match(r"^count\[(formula|hint);[^\]]*\](.*)$", sig)
+    if m:
+        return f"count[{m.group(1)}]{m.group(2)}"
+    m = re.match(r"^place\[[^\]]*\](.*)$", sig)
+    if m:
+        return f"place{m.group(1)}"
+    return sig
+
+
+def rebuild(snap):
+    """a fresh molecule with exactly the atoms, field values (same python types), coordinates and bonds
+    of a snapshot, built directly: no queries, no edits, no round trip."""
+    atoms = []
+    for d, h, raw in zip(snap["desc"], snap["hints"], snap["raw_atoms"]):
+        a = Atom(d[0], isotope=d[1], label=d[2], atype=raw[0], stereo=raw[1], geom=raw[2], formal_charge=raw[3], formal_spin=raw[4])
+        if h is not None:
+            a.attrib[HINT] = h
+        atoms.append(a)
+    m = Molecule(atoms, copy_atoms=False)
+    m.coords = np.array(snap["coords"], dtype=float)
+    try:
+        m.atomic_charges = np.array(snap["charges"], dtype=float)
+    except Exception:
+        pass
+    m.charge, m.mult = snap["charge"], snap["mult"]
+    for (i, j, bt, st, fo), raw in zip(snap["bdesc"], snap["raw_bonds"]):
+        m.append_bond(Bond(atoms[i], atoms[j], btype=raw[0], stereo=raw[1], f_order=fo))
+    return m
+
+
+def run_one(ctx, m, case, whole=False, second=True, keyclass=None, variant=None, baseline=None):
+    """one molecule: call once (and twice); report; returns (outcome tuple, set of signatures).
+
+    variant  : None for a plainly built molecule; otherwise the class name of the representation /
+               history that produced `m`.  A variant is reported only for what its plainly built
+               counterpart does not show: `baseline` = that counterpart's signatures, or None to
+               rebuild the counterpart from the snapshot when (and only when) the variant fails."""
+    bad, obs, snap = evaluate(ctx, m, whole=whole, second=second, keyclass=keyclass)
+    sigs = {s for s, _ in bad}
+    if variant is not None and bad:
+        if baseline is None:
+            try:
+                b2, _, _ = evaluate(ctx, rebuild(snap), whole=whole, second=second, keyclass=keyclass, count=False)
+                baseline = {s for s, _ in b2}
+            except Exception:
+                baseline = set()
+        bad = [(f"{family(s)}@{variant}", w) for s, w in bad if s not in baseline]
+        # several branches of one family: one report
+        seen = set()
+        bad = [(s, w) for s, w in bad if not (s in seen or seen.add(s))]
+    for sig, what in bad:
+        repro = None
+        if sig not in ctx.violations:
+            repro = make_repro(snap, case) if variant is None else make_variant_repro(case)
+        ctx.violation(sig, what + (f" [{variant}]" if variant else ""), case, repro=repro)
     if bad:
-        return ("bad", tuple(sorted(s for s, _ in bad)))
-    return ("ok", obs)
+        return ("bad", tuple(sorted(s for s, _ in bad))), sigs
+    if obs is None:
+        return ("ok", ()), sigs
+    return ("ok", obs), sigs
+
+
+def make_variant_repro(case):
+    return (
+        "# variant case: re-run with  cd /verif && ./check C16 --replay <this file>\n"
+        "# (mc.props.c16.materialise(case, seed, scratch) rebuilds the molecule through the same representation / history)\n"
+        f"case = {case!r}\n"
+    )
 
 
 # =================================================================================================
@@ -549,52 +692,276 @@ def nbr_menu(ctx):
 def pose_menu(ctx, k):
     names = [n for n, _ in poses(k)]
     if not ctx.thorough and k >= 1:
-        keep = {1: ["general", "+x", "+z", "-z", "xz-diagonal", "-y"], 2: ["general-109", "in-xy-plane-120", "first-bond+z-109", "first-bond-z-120", "bisector+z-109"], 3: ["general-tetrahedral", "axis-z-tetrahedral", "axis+z-tetrahedral", "first-bond-z", "general-flattened"]}[k]
+        keep = {1: ["general", "+x", "+z", "-z", "xz-diagonal", "-y"], 2: ["general-109", "first-bond+z-109", "first-bond-z-120", "bisector+z-109"], 3: ["general-tetrahedral", "axis-z-tetrahedral", "first-bond-z", "general-flattened"]}[k]
         names = [n for n in names if n in keep]
     return rot(names, ctx.seed)
+
+
+def rt_selected(ctx, head):
+    """heads whose environments also go through the library / pickle round trips"""
+    c, q, sp, h = head
+    if ctx.thorough:
+        return h is None or (q, sp) == (0, 0)
+    if h is None:
+        return (q, sp) in ((0, 0), (1, 0), (-1, 1))
+    return h in (0, 2) and (q, sp) == (0, 0)
+
+
+def _flush_roundtrips(sub, batch, seed):
+    """batch: [(case, baseline signatures)] -> the same environments after mlib / clib / pickle"""
+    if not batch:
+        return
+    for kind in ("mlib", "clib", "pickle"):
+        mols = [build(c, seed) for c, _ in batch]
+        try:
+            back = roundtrip(sub.scratch, mols, kind)
+        except Exception as e:
+            sub.violation(f"roundtrip[{kind}]:raised:{type(e).__name__}", f"writing/reading the environments through {kind} raised {type(e).__name__}: {e}", {**batch[0][0], "rep": kind})
+            continue
+        sub.count(transitions=2 * len(mols))
+        for (case, base), m in zip(batch, back):
+            c2 = {**case, "rep": kind}
+            o, _ = run_one(sub, m, c2, second=False, variant=REP_CLASS[kind], baseline=base)
+            sub.outcome((kind, o[0]) if o[0] != "ok" else (kind, "ok", o[1][0][6:] if o[1] else None))
+    batch.clear()
 
 
 def _grammar_part(sub, part):
     heads, nm, seed = part
     n_s = 0
-    for c, q, sp, h in heads:
+    batch = []
+    for head in heads:
+        c, q, sp, h = head
+        rts = rt_selected(sub, head)
         for k in (0, 1, 2, 3):
             pn = pose_menu(sub, k)
             for els, bts in nm[k]:
                 for pname in pn:
                     case = {"kind": "environment", "centre": c, "charge": q, "spin": sp, "hint": h, "nbrs": [list(x) for x in zip(els, bts)], "pose": pname}
                     m = build(case, seed)
-                    o = run_one(sub, m, case)
+                    # quick: the second (idempotence) call on the first two poses of every environment
+                    o, base = run_one(sub, m, case, second=sub.thorough or pname in pn[:2])
                     sub.outcome(o if o[0] != "ok" else ("ok", o[1][0][6:] if o[1] else None, len(o[1])))
+                    # the same environment written with plain numbers
+                    if pname in pn[:3] if sub.thorough else (pname == pn[0] or (k == 1 and pname == pn[1])):
+                        c1 = {**case, "rep": "plain"}
+                        o1, _ = run_one(sub, build(case, seed, rep="plain"), c1, second=False, variant=REP_CLASS["plain"], baseline=base)
+                        sub.outcome(("plain", o1[0]) if o1[0] != "ok" else ("plain", "ok", o1[1][0][6:] if o1[1] else None))
+                    if rts and pname == pn[0]:
+                        batch.append((case, base))
+                        if len(batch) >= 1500:
+                            _flush_roundtrips(sub, batch, seed)
                     bonded = sum(BT_ORDER[b] for b in bts)
                     if h is not None or due(Z_OF[c], q, sp, bonded, None) > 0:
                         sub.nontrivial((c, q, sp, h, els, bts, pname))
                     n_s += 1
                     if n_s % 4001 == 1:
                         sub.sample({**case, "hydrogens_due_at_centre": due(Z_OF[c], q, sp, bonded, h), "outcome": o[0]})
+    _flush_roundtrips(sub, batch, seed)
+
+
+# =================================================================================================
+# histories: a query, then an edit of the connectivity / the fields, then the call
+# =================================================================================================
+QUERIES = ("no-query", "neighbour-queries", "earlier-call")
+
+
+def apply_query(m, q):
+    if q == "neighbour-queries":
+        for a in list(m.atoms):
+            m.bonded_valence(a)
+            m.n_bonds_with_atom(a)
+            list(m.connected_atoms(a))
+            list(m.bonds_with_atom(a))
+    elif q == "earlier-call":
+        with warnings.catch_warnings():
+            warnings.simplefilter("ignore")
+            m.add_implicit_hydrogens()
+
+
+def _retype(b, name, as_int=False):
+    btype, fo = BT[name]
+    if int(btype) == 99:
+        b.f_order = fo
+    b.btype = int(btype) if as_int else btype
+
+
+def _shifted(name, j):
+    return BTYPES[(BTYPES.index(name) + j) % len(BTYPES)]
+
+
+def apply_edit(m, case, edit):
+    """edit = [kind, parameter]; works on the first drawn bond / the centre (atom 0)"""
+    kind = edit[0]
+    k = len(case["nbrs"])
+    centre = m.atoms[0]
+    if kind in ("connect_like", "connect_like-fewer-bonds"):
+        ref = Molecule(m)
+        first = [b for b in ref.bonds if ref.atoms[0] in (b.a1, b.a2) and ref.get_atom_index(b.a1) <= k and ref.get_atom_index(b.a2) <= k]
+        if kind == "connect_like":
+            for b, (_, name) in zip(first, case["nbrs"]):
+                _retype(b, _shifted(name, edit[1]))
+        else:
+            ref.del_bond(first[0])
+        m.connect_like(ref)
+    elif kind == "del_bond+connect":
+        b = m.bonds[0]
+        other = b.a2 if b.a1 is centre else b.a1
+        m.del_bond(b)
+        btype, fo = BT[_shifted(case["nbrs"][0][1], edit[1])]
+        m.connect(centre, other, btype=btype, f_order=fo)
+    elif kind == "del_bond":
+        m.del_bond(m.bonds[0])
+    elif kind == "btype-assigned":
+        _retype(m.bonds[0], _shifted(case["nbrs"][0][1], edit[1]))
+    elif kind == "btype-assigned-int":
+        _retype(m.bonds[0], _shifted(case["nbrs"][0][1], edit[1]), as_int=True)
+    elif kind == "f_order-assigned":
+        m.bonds[0].f_order = edit[1]
+    elif kind == "formal_charge-assigned":
+        centre.formal_charge = edit[1]
+    elif kind == "formal_spin-assigned":
+        centre.formal_spin = edit[1]
+    elif kind == "hint-added":
+        centre.attrib[HINT] = edit[1]
+    elif kind == "hint-removed":
+        centre.attrib.pop(HINT, None)
+    else:  # pragma: no cover
+        raise HarnessError(f"unknown edit {edit}")
+
+
+def edit_menu(ctx, case):
+    k = len(case["nbrs"])
+    shifts = (1, 2, 3, 4)
+    few = shifts if ctx.thorough else (1, 3)
+    out = []
+    if k:
+        out += [["connect_like", j] for j in shifts]
+        out += [["connect_like-fewer-bonds", 0]]
+        out += [["del_bond+connect", j] for j in few]
+        out += [["del_bond", 0]]
+        out += [["btype-assigned", j] for j in few]
+        out += [["btype-assigned-int", j] for j in few]
+        if case["nbrs"][0][1] == "fractional":
+            out += [["f_order-assigned", 1.5]] + ([["f_order-assigned", 2.0]] if ctx.thorough else [])
+    out += [["formal_charge-assigned", q] for q in CHARGES if q != case["charge"]]
+    out += [["formal_spin-assigned", sp] for sp in SPINS if sp != case["spin"]]
+    if case["hint"] is None:
+        out += [["hint-added", h] for h in ((0, 1, 2, 3) if ctx.thorough else (0, 2))]
+    else:
+        out += [["hint-removed", 0]]
+    return out
+
+
+def history_bases(ctx):
+    s = ctx.seed
+    heads = []
+    for n, c in enumerate(rot(CENTRES, s)):
+        if ctx.thorough:
+            qs = [(0, 0), (1, 0), (-1, 1), (0, 2)]
+        else:
+            qs = [(0, 0), (-1, 1)] if n % 4 == 0 else [(0, 0)]
+        for q, sp in qs:
+            heads.append((c, q, sp, None))
+        if ctx.thorough or n % 2 == 0:
+            heads.append((c, 0, 0, 2))
+        if ctx.thorough:
+            heads.append((c, 0, 0, 0))
+    bts = rot(BTYPES, s)
+    specs = [((), (), "none")]
+    for b in bts:
+        specs.append((("C",), (b,), "general"))
+        specs.append((("C",), (b,), "+z"))
+    for i, b1 in enumerate(bts):
+        for b2 in bts[i:]:
+            specs.append((("C", "C"), (b1, b2), "general-109"))
+    for b in bts:
+        specs.append((("C", "M"), (b, "single"), "first-bond+z-109"))
+    rows = oa25() if ctx.thorough else [(i, j, (i + j) % 5) for i in range(5) for j in (i, (i + 1) % 5)]
+    for i, j, kk in rows:
+        specs.append((("C", "C", "C"), (bts[i], bts[j], bts[kk]), "general-tetrahedral"))
+    return heads, specs
+
+
+def materialise(case, seed, scratch):
+    """the molecule of a case, through its representation and history (also used by replay)."""
+    rep = case.get("rep", "members")
+    c = dict(case)
+    c["nbrs"] = [tuple(x) for x in case["nbrs"]]
+    if rep in ("members", "plain"):
+        m = build(c, seed, rep=rep)
+    else:
+        m = roundtrip(scratch, [build(c, seed)], rep)[0]
+    hist = case.get("history")
+    if hist:
+        apply_query(m, hist["query"])
+        apply_edit(m, c, hist["edit"])
+    return m
+
+
+def _history_part(sub, part):
+    heads, specs, seed = part
+    n = 0
+    for c, q, sp, h in heads:
+        for els, bts, pname in specs:
+            base = {"kind": "environment", "centre": c, "charge": q, "spin": sp, "hint": h, "nbrs": [list(x) for x in zip(els, bts)], "pose": pname}
+            for edit in edit_menu(sub, base):
+                for query in QUERIES:
+                    if edit[0] == "hint-removed" and query == "earlier-call":
+                        continue  # the earlier call has consumed the hint already
+                    case = {**base, "history": {"query": query, "edit": edit}}
+                    try:
+                        m = materialise(case, seed, sub.scratch)
+                    except Exception as e:
+                        sub.violation(f"history[{query};{edit[0]}]:setup-raised:{type(e).__name__}", f"query/edit before the call raised {type(e).__name__}: {e}", case)
+                        continue
+                    sub.count(transitions=2)
+                    o, _ = run_one(sub, m, case, whole=True, second=sub.thorough, variant=f"history[{query};{edit[0]}]", baseline=None)
+                    sub.outcome(("history", query, edit[0], o[0]) if o[0] != "ok" else ("history", o[1][0][6:] if o[1] else None))
+                    sub.nontrivial((c, q, sp, h, els, bts, query, tuple(edit)))
+                    sub.add_note("history_cases")
+                    n += 1
+                    if n % 3001 == 1:
+                        sub.sample({**case, "outcome": o[0]})
 
 
 # =================================================================================================
 # whole molecules
 # =================================================================================================
+def _whole_one(ctx, load, case, keyclass):
+    """a whole molecule as loaded, and again after the library / pickle round trips"""
+    m = load()
+    n_before = m.n_atoms
+    o, base = run_one(ctx, m, case, whole=True, keyclass=keyclass)
+    for kind in ("mlib", "clib", "pickle"):
+        try:
+            m2 = roundtrip(ctx.scratch, [load()], kind)[0]
+        except Exception as e:
+            ctx.add_note(f"whole_molecules_that_do_not_survive_{kind}")
+            ctx.add_note(f"whole_molecules_that_do_not_survive_{kind}:{type(e).__name__}")
+            continue
+        ctx.count(transitions=2)
+        o2, _ = run_one(ctx, m2, {**case, "rep": kind}, whole=True, keyclass=keyclass, variant=REP_CLASS[kind], baseline=base)
+        ctx.outcome((case["kind"], kind, o2[0], m2.n_atoms - n_before))
+    return m, n_before, o
+
+
 def whole_molecules(ctx):
     import molli
     from molli.ftypes.cdxml import CDXMLFile
 
     root = Path(molli.__file__).resolve().parent / "files"
     p = root / "hadd_test.mol2"
-    m = Molecule.load_mol2(p)
     case = {"kind": "file", "file": "hadd_test.mol2"}
-    o = run_one(ctx, m, case, whole=True, keyclass="mol2")
+    m, n_before, o = _whole_one(ctx, lambda: Molecule.load_mol2(p), case, "mol2")
     ctx.outcome(("file", o[0], len(o[1]) if o[0] == "ok" and o[1] else 0))
     ctx.nontrivial(("hadd_test.mol2",))
-    ctx.sample({**case, "atoms_before": 16, "atoms_after": m.n_atoms, "outcome": o[0]})
+    ctx.sample({**case, "atoms_before": n_before, "atoms_after": m.n_atoms, "outcome": o[0]})
     nfr = 0
     for path in sorted(root.rglob("*.cdxml")):
         with warnings.catch_warnings():
             warnings.simplefilter("ignore")
             f = CDXMLFile(path)
-        labelled = set()
         jobs = []
         for k in f.keys():
             jobs.append(("label", k))
@@ -602,23 +969,28 @@ def whole_molecules(ctx):
             jobs.append(("fragment", i))
         seen = set()
         for kind, k in jobs:
-            try:
+
+            def load(kind=kind, k=k):
                 with warnings.catch_warnings():
                     warnings.simplefilter("ignore")
                     if kind == "label":
-                        m = f[k]
-                        seen.add(id(f.xfrag_cache.get(k)))
-                    else:
-                        if id(f.xfrags[k]) in seen:
-                            continue
-                        m = f._parse_fragment(f.xfrags[k], name=f"fragment{k}")
+                        return f[k]
+                    return f._parse_fragment(f.xfrags[k], name=f"fragment{k}")
+
+            try:
+                if kind == "label":
+                    load()
+                    seen.add(id(f.xfrag_cache.get(k)))
+                else:
+                    if id(f.xfrags[k]) in seen:
+                        continue
+                    load()
             except Exception:
                 ctx.add_note("cdxml_fragments_that_do_not_parse")
                 continue
             nfr += 1
-            n_before = m.n_atoms
             case = {"kind": "cdxml", "file": path.name, "by": kind, "key": k}
-            o = run_one(ctx, m, case, whole=True, keyclass="cdxml")
+            m, n_before, o = _whole_one(ctx, load, case, "cdxml")
             ctx.outcome(("cdxml", o[0], (m.n_atoms - n_before)))
             if m.n_atoms > n_before:
                 ctx.nontrivial((path.name, kind, k))
@@ -634,6 +1006,8 @@ def _whole_part(sub, _):
 def _dispatch(sub, part):
     if part[0] == "whole":
         whole_molecules(sub)
+    elif part[0] == "history":
+        _history_part(sub, part[1])
     else:
         _grammar_part(sub, part[1])
 
@@ -693,6 +1067,7 @@ def run(ctx):
         "'away from the centroid of the existing neighbours' is accepted for the centroid of all neighbours or of the neighbours that are not typed CoordinationCenter (the routine documents that it ignores those); in whole molecules the clause is applied only where the surroundings fix a direction (centroid >= 0.2 A from the atom; three neighbours: atom >= 0.2 A out of their plane)",
         "direction clause: every new hydrogen individually when the atom ends with <= 4 substituents; when a hint over-saturates the atom (neighbours + hydrogens > 4) the mean direction of its new hydrogens must point away",
         "covalent radii: Pyykko & Atsumi 2009 single-bond radii; 'at the sum of covalent radii' is judged to 1e-3 A (the precision of the structure file formats); deviations above 1e-6 A are counted in a note (the two-hydrogen branch uses 4-digit sin/cos constants: 5.6e-5 A)",
+        "representations and histories: the expected counts are always computed from what the molecule object holds right before the call (bond type numbers, f_order, formal charge/spin, hint), the order of an int-typed bond being that of the enum member with the same value; a failure of a variant (plain numbers, library/pickle round trip, query+edit history) is reported under '<symptom family>@<variant class>' and only for what the same molecule built plainly does not show",
         "seeds turn every pose about the z axis (so that z-aligned poses stay z-aligned), change the centre position and bond lengths and rotate the alphabets",
     ]
     tables_vs_molli(ctx)
@@ -705,36 +1080,53 @@ def run(ctx):
     ctx.bound["poses"] = {str(k): pose_menu(ctx, k) for k in (0, 1, 2, 3)}
     ctx.bound["environments"] = ncase * len(heads)
     ctx.bound["bond_types_of_3_neighbours"] = "full 5^3" if ctx.thorough else "pairwise covering array OA(25,3,5)"
+    ctx.bound["representations"] = "every environment as enum members/symbols and as plain ints / atomic numbers / numpy integers; (as plain numbers: quick the first pose - two for one neighbour -, thorough the first three poses;) the first pose of every (selected head, neighbour spec) and every whole molecule also after a MoleculeLibrary and a ConformerLibrary write+read and after pickle"
+    hheads, hspecs = history_bases(ctx)
+    ctx.bound["history_bases"] = len(hheads) * len(hspecs)
+    ctx.bound["history"] = "queries " + "/".join(QUERIES) + " x edits connect_like (4 retypings, 1 bond fewer), del_bond(+connect), btype/f_order/formal_charge/formal_spin assigned in place, hint added/removed"
     nparts = 64 if ctx.thorough else 16
     parts = [("whole", None)]
+    nh = 16 if ctx.thorough else 8
+    for i in range(nh):
+        hs = hheads[i::nh]
+        if hs:
+            parts.append(("history", (hs, hspecs, ctx.seed)))
     for i in range(nparts):
         hs = heads[i::nparts]
         if hs:
             parts.append(("grammar", (hs, nm, ctx.seed)))
-    ctx.pmap(_dispatch, parts)
+    ctx.pmap(_dispatch, parts, nproc=int(os.environ.get("VERIF_NPROC", "0")) or min(16, os.cpu_count() or 1))
 
 
 def replay(ctx, case):
     kind = case.get("kind")
+    rep = case.get("rep", "members")
+    variant = None
+    if case.get("history"):
+        variant = f"history[{case['history']['query']};{case['history']['edit'][0]}]"
+    elif rep != "members":
+        variant = REP_CLASS[rep]
     if kind == "environment":
-        c = dict(case)
-        c["nbrs"] = [tuple(x) for x in case["nbrs"]]
-        m = build(c, ctx.seed)
-        run_one(ctx, m, case)
-    elif kind == "file":
-        import molli
+        m = materialise(case, ctx.seed, ctx.scratch)
+        run_one(ctx, m, case, whole=bool(case.get("history")), variant=variant, baseline=None)
+        return
+    import molli
 
-        m = Molecule.load_mol2(Path(molli.__file__).resolve().parent / "files" / case["file"])
-        run_one(ctx, m, case, whole=True, keyclass="mol2")
+    root = Path(molli.__file__).resolve().parent / "files"
+    if kind == "file":
+        m = Molecule.load_mol2(root / case["file"])
+        keyclass = "mol2"
     elif kind == "cdxml":
-        import molli
         from molli.ftypes.cdxml import CDXMLFile
 
-        p = [q for q in (Path(molli.__file__).resolve().parent / "files").rglob("*.cdxml") if q.name == case["file"]][0]
+        p = [q for q in root.rglob("*.cdxml") if q.name == case["file"]][0]
         with warnings.catch_warnings():
             warnings.simplefilter("ignore")
             f = CDXMLFile(p)
             m = f[case["key"]] if case["by"] == "label" else f._parse_fragment(f.xfrags[case["key"]], name=f"fragment{case['key']}")
-        run_one(ctx, m, case, whole=True, keyclass="cdxml")
+        keyclass = "cdxml"
     else:
         raise HarnessError(f"unknown case kind {kind!r}")
+    if rep != "members":
+        m = roundtrip(ctx.scratch, [m], rep)[0]
+    run_one(ctx, m, case, whole=True, keyclass=keyclass, variant=variant, baseline=None)
